@@ -391,8 +391,8 @@ def rule_label(ctx):
     if n_sites < 10:
         raise AnalysisError("R-LABEL: only %d label-defining sites found" % n_sites)
     # generated definition names: lift must consult used_labels in a retry loop around fresh_identifier
-    lift_key = "core2axcut::statements::cut::lift"
-    fn = Fn(fx.fn(lift_key))
+    lift_key = fx.fn("core2axcut::statements::cut::lift")["key"]
+    fn = Fn(fx.fns[lift_key])
     # the retry loop may live in a helper of core2axcut that lift calls (two levels): the body that consults used_labels
     cands, seen_k = [lift_key], {lift_key}
     for depth in range(2):
